@@ -181,6 +181,7 @@ type Op struct {
 	R          *sim.SimReader // EPlain, EReader, EMatch
 	UseBytes   bool           // offer Bytes() on the reader
 	ReaderKind int            // 0 the double itself, 1 wrapped in bufio.Reader, 2 wrapped in io.MultiReader
+	WriterKind int            // 0 the double itself, 1 with Flush() error, 2 with Flush(), 3 with WriteString and Sync
 	W          *sim.SimWriter // every entry that writes into a caller's writer
 	// producer side (EWriter, ERespWriter, EMiddle*): sizes of successive Write calls;
 	// the remainder goes in one call. A size 0 is an empty Write.
@@ -221,6 +222,34 @@ type Op struct {
 	Finished   bool
 	scratch    []byte
 }
+
+// writer hands the destination over the way callers' writers come: the bare double, or one
+// that also has a Flush / WriteString / Sync method (an adapter over a socket, a bufio-like
+// type): extra methods must not change who reports the write error.
+func (op *Op) writer() io.Writer {
+	switch op.WriterKind {
+	case 1:
+		return flushErrWriter{op.W}
+	case 2:
+		return flushWriter{op.W}
+	case 3:
+		return stringWriter{op.W}
+	}
+	return op.W
+}
+
+type flushErrWriter struct{ *sim.SimWriter }
+
+func (flushErrWriter) Flush() error { return nil }
+
+type flushWriter struct{ *sim.SimWriter }
+
+func (flushWriter) Flush() {}
+
+type stringWriter struct{ *sim.SimWriter }
+
+func (w stringWriter) WriteString(s string) (int, error) { return w.SimWriter.Write([]byte(s)) }
+func (w stringWriter) Sync() error                       { return nil }
 
 func (op *Op) reader() io.Reader {
 	switch op.ReaderKind {
@@ -275,13 +304,13 @@ func (op *Op) Exec(y *sim.Point, m *minify.M) {
 	}()
 	switch op.Entry {
 	case EPlain:
-		op.Err = m.Minify(op.MT, op.W, op.reader())
+		op.Err = m.Minify(op.MT, op.writer(), op.reader())
 		op.Out = op.W.Buf
 	case nEntries + 1: // EMimetype
-		op.Err = m.MinifyMimetype(op.Mimetype, op.W, op.reader(), nil)
+		op.Err = m.MinifyMimetype(op.Mimetype, op.writer(), op.reader(), nil)
 		op.Out = op.W.Buf
 	case nEntries: // EDirect
-		op.Err = op.Direct.Minify(m, op.W, op.reader(), nil)
+		op.Err = op.Direct.Minify(m, op.writer(), op.reader(), nil)
 		op.Out = op.W.Buf
 	case EMatch:
 		_, params, f := m.Match(op.MT)
@@ -289,7 +318,7 @@ func (op *Op) Exec(y *sim.Point, m *minify.M) {
 			op.MatchNil = true
 			return
 		}
-		op.Err = f(m, op.W, op.reader(), params)
+		op.Err = f(m, op.writer(), op.reader(), params)
 		op.Out = op.W.Buf
 	case EBytes:
 		in := op.In
@@ -331,7 +360,7 @@ func (op *Op) Exec(y *sim.Point, m *minify.M) {
 		}
 		op.Out = op.Consumed
 	case EWriter:
-		wc := m.Writer(op.MT, op.W)
+		wc := m.Writer(op.MT, op.writer())
 		op.produce(y, wc)
 		y.Yield("close", 0)
 		op.CloseErr = wc.Close()
